@@ -1059,8 +1059,8 @@ def frag_layer(run, rng, tier, model):
                 if sol2:
                     put(ty, pat, sol2[0], {L: (bad, sol2[1], FR.form_of(sol2[1]))}, "badmult", level=L)
             cps = FR.cut_points(me["marks"], me["full"])
-            if q or ty.heavy:
-                k = 1 if ty.heavy else 3
+            if q or ty.heavy or len(ms or []) > 2:
+                k = (1 if ty.heavy else 3) if q else 8
                 cps = [cps[(ci * k + j * 3) % len(cps)] for j in range(k)] if cps else []
             for c in sorted(set(cps)):
                 put(ty, pat, n, fr, "trunc", cut=c, level=L)
